@@ -605,8 +605,10 @@ func rpkiOp(w *simWorld, actor int, op *Op) {
 		conn := c.conn
 		c.mu.Unlock()
 		if conn != nil {
-			conn.Close()
+			// (noted before the connection goes: the router may reconnect and complete a
+			// response before this goroutine runs again)
 			c.noteLost()
+			conn.Close()
 		}
 		rpkiSettle()
 		w.probe("cache_restart")
@@ -617,9 +619,9 @@ func rpkiOp(w *simWorld, actor int, op *Op) {
 		conn := c.conn
 		c.mu.Unlock()
 		if conn != nil && !conn.isClosed() {
+			c.noteLost()
 			w.net.resetPair(conn)
 			w.net.stats.fire("conn_reset")
-			c.noteLost()
 		}
 		rpkiSettle()
 	case "stall":
